@@ -203,7 +203,7 @@ type vExpect struct {
 	kind      int
 	path      string // full command path of the command concerned
 	cmd       *vLvl
-	levels    []*vLvl   // levels validated, root first (rkRun / rkNoAction / rkReject: up to the rejecting one)
+	levels    []*vLvl    // levels validated, root first (rkRun / rkNoAction / rkReject: up to the rejecting one)
 	tokens    [][]string // their own tokens
 	unclaimed bool
 }
